@@ -170,6 +170,27 @@ pub fn run_socket_part(ev: &mut Evidence, seed: u64, runs: usize, scratch: &std:
             ev.eval(None);
         }
     }
+    // confirmation of a hand-over under back-pressure
+    for run in 0..(runs / 30).clamp(2, 12) {
+        if !ev.violations.is_empty() {
+            break;
+        }
+        match rt.block_on(acquire_under_back_pressure(&server, run as u64)) {
+            Ok(None) => {
+                ev.eval(Some(hash_str(&format!("c06-back-pressure-{run}"))));
+                ev.count("socket_acquire_confirmed_after_back_pressure", 1);
+            }
+            Ok(Some(d)) => {
+                ev.eval(None);
+                ev.violation("C06 socket: an acquire request queued under back-pressure was not confirmed exactly once".to_owned(), json!({"run": run, "difference": d}));
+            }
+            Err(e) => {
+                ev.inconclusive += 1;
+                ev.count("socket_back_pressure_runs_inconclusive", 1);
+                ev.extra.insert("last_inconclusive_reason_back_pressure".into(), json!(e));
+            }
+        }
+    }
     worterbuch::verif::set_perturbation(0);
     ev.extra.insert("perturbation_hits_socket".into(), json!(worterbuch::verif::perturbation_hits()));
     let failures = worterbuch::verif::take_invariant_failures();
@@ -178,4 +199,139 @@ pub fn run_socket_part(ev: &mut Evidence, seed: u64, runs: usize, scratch: &std:
     }
     rt.shutdown_timeout(Duration::from_secs(5));
     server.stop(Duration::from_secs(10)).ok();
+}
+
+// ---------------------------------------------------------------------------------------------
+// acquire-lock confirmed under back-pressure
+// ---------------------------------------------------------------------------------------------
+
+/// Session A queues for a lock that B holds and then pipelines thousands of requests WITHOUT reading,
+/// until the server stops reading from it (its outbound channel and socket buffer are full). Only then B
+/// releases the lock. When A finally drains its socket, its acquire request must have been confirmed
+/// exactly once - the hand-over happened while the confirmation could not be delivered at once.
+/// Ok(None) held / Ok(Some(diff)) violated / Err inconclusive
+pub async fn acquire_under_back_pressure(server: &Server, run: u64) -> Result<Option<String>, String> {
+    use tokio::io::{AsyncBufReadExt, AsyncWriteExt, BufReader};
+    use worterbuch_common::WbApi;
+    let socket = server.socket.clone().ok_or("no socket")?;
+    let key = format!("c06bp{run}/lock");
+    let big = format!("c06bp{run}/big");
+    server.api.set(big.clone(), json!("x".repeat(2048)), uuid::Uuid::nil()).await.map_err(|e| e.to_string())?;
+    let mut b = Session::connect(&socket).await?;
+    let t = b.tid();
+    let ack = b.call(&json!({"lock": {"transactionId": t, "key": key}}), &["ack"], T).await.map_err(|e| format!("B lock: {e:?}"))?;
+    if kind_of(&ack) != Some("ack") {
+        return Err(format!("B could not take the free lock: {ack}"));
+    }
+    // session A on a raw stream: a writer task that never gives up and a reader that starts late
+    let stream = tokio::net::UnixStream::connect(&socket).await.map_err(|e| e.to_string())?;
+    let (r, mut w) = stream.into_split();
+    let mut lines = BufReader::new(r).lines();
+    let welcome = tokio::time::timeout(T, lines.next_line()).await.map_err(|_| "no welcome")?.map_err(|e| e.to_string())?;
+    let a_id = welcome
+        .and_then(|l| serde_json::from_str::<serde_json::Value>(&l).ok())
+        .and_then(|v| v["welcome"]["clientId"].as_str().map(str::to_owned))
+        .ok_or("no client id")?;
+    const ACQ: u64 = 2;
+    const FLOOD: u64 = 12_000;
+    const MARK: u64 = 1_000_000;
+    let progress = Arc::new(AtomicU64::new(0));
+    let p2 = progress.clone();
+    let (key2, big2) = (key.clone(), big.clone());
+    let writer = tokio::spawn(async move {
+        let first = format!("{}\n", json!({"acquireLock": {"transactionId": ACQ, "key": key2}}));
+        w.write_all(first.as_bytes()).await.ok()?;
+        for i in 0..FLOOD {
+            let line = format!("{}\n", json!({"get": {"transactionId": 10 + i, "key": big2}}));
+            w.write_all(line.as_bytes()).await.ok()?;
+            p2.store(i + 1, Ordering::SeqCst);
+        }
+        let line = format!("{}\n", json!({"get": {"transactionId": MARK, "key": big2}}));
+        w.write_all(line.as_bytes()).await.ok()?;
+        w.flush().await.ok()?;
+        Some(w)
+    });
+    // wait until the writer has not made progress for a while: the server has stopped reading
+    let mut last = 0;
+    let mut stalled_for = 0;
+    let mut waited = 0;
+    while stalled_for < 15 && waited < 1500 {
+        tokio::time::sleep(Duration::from_millis(20)).await;
+        waited += 1;
+        let now = progress.load(Ordering::SeqCst);
+        if now == last && now > 0 && now < FLOOD {
+            stalled_for += 1;
+        } else {
+            stalled_for = 0;
+        }
+        last = now;
+        if now >= FLOOD {
+            break;
+        }
+    }
+    let blocked = last < FLOOD;
+    // the holder lets go while A's outbound path is (hopefully) full
+    let r = b.tid();
+    let ack = b.call(&json!({"releaseLock": {"transactionId": r, "key": key}}), &["ack"], T).await.map_err(|e| format!("B release: {e:?}"))?;
+    if kind_of(&ack) != Some("ack") {
+        return Err(format!("B's release was refused: {ack}"));
+    }
+    // A drains its socket up to the marker
+    let mut acks = 0u64;
+    let mut other_for_acq: Vec<String> = vec![];
+    let mut marker_seen = false;
+    loop {
+        let line = match tokio::time::timeout(Duration::from_secs(30), lines.next_line()).await {
+            Ok(Ok(Some(l))) => l,
+            Ok(_) => return Err("session A was closed by the server".into()),
+            Err(_) => break,
+        };
+        // cheap pre-filter: most lines are 2 KiB answers
+        if line.len() < 200 || line.contains("\"transactionId\":2,") || line.contains("\"transactionId\":2}") || line.contains("1000000") {
+            if let Ok(v) = serde_json::from_str::<serde_json::Value>(&line) {
+                match tid_of(&v) {
+                    Some(ACQ) if kind_of(&v) == Some("ack") => acks += 1,
+                    Some(ACQ) => other_for_acq.push(line.chars().take(200).collect()),
+                    Some(MARK) => {
+                        marker_seen = true;
+                        break;
+                    }
+                    _ => {}
+                }
+            }
+        }
+    }
+    if !marker_seen {
+        return Err("the marker request of session A was not answered within the watchdog".into());
+    }
+    // the confirmation is sent by its own task: give it time after the marker, then judge
+    let deadline = tokio::time::Instant::now() + Duration::from_secs(20);
+    while acks == 0 && other_for_acq.is_empty() && tokio::time::Instant::now() < deadline {
+        if let Ok(Ok(Some(line))) = tokio::time::timeout(Duration::from_millis(200), lines.next_line()).await
+            && let Ok(v) = serde_json::from_str::<serde_json::Value>(&line)
+            && tid_of(&v) == Some(ACQ)
+        {
+            if kind_of(&v) == Some("ack") {
+                acks += 1;
+            } else {
+                other_for_acq.push(line.chars().take(200).collect());
+            }
+        }
+    }
+    writer.abort();
+    // who holds the lock now, as the server sees it?
+    let probe = uuid::Uuid::from_u128(0x6666_0000_0000_0000_0000_0000_0000_0000u128 + run as u128);
+    let held_by_someone = server.api.lock(key.clone(), probe).await.is_err();
+    if !held_by_someone {
+        server.api.release_lock(key.clone(), probe).await.ok();
+    }
+    if acks == 1 && other_for_acq.is_empty() {
+        return Ok(None);
+    }
+    Ok(Some(format!(
+        "acquireLock of session {a_id} (queued behind a holder, {} requests pipelined without reading, writer blocked: {blocked}): after the holder released and the session drained its socket the request has {acks} confirmations and {} other answers {other_for_acq:?}; the lock is {} now",
+        last,
+        other_for_acq.len(),
+        if held_by_someone { "held (by the session that was never told)" } else { "free" }
+    )))
 }
